@@ -1,7 +1,7 @@
 (** C11/Corr.v — executable comparison of implementation observations with the model
     (the python plugin writes [case] terms from the JSON lines of `c11 corr` and of the search dumps). *)
 From Coq Require Import List NArith Bool.
-From EV Require Import Base.Perm Gen.C11_Sort C11.Model.
+From EV Require Import Base.Perm Gen.C11_Sort C11.Model C11.ModelIdx.
 Import ListNotations.
 Local Open Scope N_scope.
 
@@ -33,8 +33,9 @@ Definition check_case (c : case) : bool :=
   match c with
   | Drv mode batch orders => list_list_eqb (recorded_orders mode batch) orders
   | BO ids edges metas out =>
-      match best_order (deps_of edges) metas ids with
-      | Some r => list_eqb r out
-      | None => false
+      (* both the literal (index based) transcription and the closed form must give the implementation's answer *)
+      match best_order_idx (deps_of edges) metas ids, best_order (deps_of edges) metas ids with
+      | Some r, Some r' => list_eqb r out && list_eqb r' out
+      | _, _ => false
       end
   end.
